@@ -41,6 +41,20 @@ CLAIMED = {
         "(size, spacing, center, origin, direction, align_corners, cube_extent), float32 tolerance policy",
         "DESIGN.md 3 C03",
     ),
+    "C09": (
+        "spec/TransformState.tla, spec/MC_TransformState.tla",
+        "TLA+ state machine of buffered transform state (parameter holders, shared parameter tensors of shallow copies, p-buffer "
+        "aliasing of links, cached displacement buffers, grid, conditioning, inverse/link creation); TLC checks CallFresh, "
+        "DispFreshAfterReplace, InverseStaysInverse, CopiesIndependent on all histories up to the bound and emits each history with the "
+        "admissible observations; every history is stepped through real DDF/SVF/FFD/SVFFD objects (versions realised as constant world "
+        "displacements); deeper histories from TLC -simulate",
+        "exhaustive histories of the 14 public operations up to length 3 (4 thorough) for each kind x holder, plus simulated histories "
+        "of length up to 9 (12); an observation outside the admissible set, a wrong grid after grid_/grid, or an exception on an enabled "
+        "operation is a violation",
+        "trusted: TLC, the version<->constant-world-displacement encoding (exact for these models), harness/dv/tstate.py; composites "
+        "covered by C06/C07",
+        "DESIGN.md 3 C09, Appendix A.1",
+    ),
     "C19": (
         "spec/Batch.tla, spec/MC_Batch.tla, spec/Trace_Batch.tla",
         "TLA+ state machine over programs of torch operations: each operation is given by its mathematical effect on the item "
